@@ -177,6 +177,15 @@ func naturalOrder(cfg Config) bool {
 // constructor (lists and sets only; nil otherwise).  An equal observation vector is part of sane bit 7.
 func rebuilt(d *drv) *drv {
 	vs := d.c.Values()
+	if isSetKind(d.cfg.Kind) {
+		vs = append(vs, vs...) // repeated arguments are one member
+	}
+	// the constructor must copy its arguments: they are overwritten before the new container is observed
+	defer func() {
+		for i := range vs {
+			vs[i] = mutateMark + i
+		}
+	}()
 	n := &drv{cfg: d.cfg, calls: new(int)}
 	n.kf = countingComparator(d.cfg.KCmp, n.calls)
 	n.vf = comparator(d.cfg.VCmp)
